@@ -384,6 +384,14 @@ theorem model_settled_bool (d : Nat) (kinds : List Kind) (budgets : List Nat) (h
 example : (∀ it ∈ demo, ItemOk 4 it) ∧ (runHistory demoCfg (demo ++ [.quiesce])).hung = false
     ∧ (runHistory demoCfg (demo ++ [.quiesce])).dispatchedNow = false := by decide +kernel
 
+/-- **non-sticky form for handlers that run to completion**: in every state of an in-scope interrupt-only execution —
+    also after a `fibre_eventq_send` has returned false or the handler has been killed and woken again — as long as an event
+    whose send returned true (claimed since the handler was last killed) is unprocessed, the handler is owed a dispatch
+    (hence pending: `accepted_never_lost`) or is running and has not yet seen its queue empty -/
+theorem sent_event_keeps_handler_owed {n : Nat} {s : S} (hr : ReachR n s) (h : s.a.mustGet ≠ []) :
+    HANDLER ∈ s.a.owedFids ∨ HRunning s :=
+  (reachR_monW hr).mm h
+
 /-! ## the executable runner -/
 
 /-- every state the executable model passes through on any history is reachable, hence satisfies all of the above -/
